@@ -915,6 +915,193 @@ func runRoundRobinCut(c *run.Ctx, r *kit.Rng, s *kit.Summary, n int) {
 	}
 }
 
+// runGuarded runs the real vegeta binary with a deadline and a cap on the size of its -output file
+// (a command that reads an endless supply of records would otherwise never end / fill the disk).
+// Returns the exit error, and whether it had to be stopped ("deadline" / "output flood").
+func runGuarded(c *run.Ctx, out string, cap int64, deadline time.Duration, args ...string) (exit error, stopped string) {
+	cmd := exec.Command(c.Vegeta, args...)
+	cmd.Env = append(os.Environ(), "VEGETA_VERIF_DRIVER=")
+	var stderr bytes.Buffer
+	cmd.Stderr = &stderr
+	cmd.Stdout = io.Discard
+	if err := cmd.Start(); err != nil {
+		return err, "cannot start"
+	}
+	done := make(chan error, 1)
+	go func() { done <- cmd.Wait() }()
+	t0 := time.Now()
+	for {
+		select {
+		case err := <-done:
+			return err, ""
+		case <-time.After(20 * time.Millisecond):
+		}
+		if fi, err := os.Stat(out); err == nil && fi.Size() > cap {
+			cmd.Process.Kill()
+			<-done
+			return nil, "output flood"
+		}
+		if time.Since(t0) > deadline {
+			cmd.Process.Kill()
+			<-done
+			return nil, "deadline"
+		}
+	}
+}
+
+// runEarlyCuts: the commands on inputs cut BEFORE the first record is complete (offset 0, inside the gob type
+// definitions, inside the first record, one byte before its end) and just after it — a single file, two such
+// files, and such a file next to an intact one. What `encode` writes (and what `report` counts) must be
+// records completely written to the inputs — nothing invented, in particular no endless run of records —
+// and, when the command reports success, all of them; then end-of-stream or an error.
+func runEarlyCuts(c *run.Ctx, r *kit.Rng, s *kit.Summary) {
+	if _, err := os.Stat(c.Vegeta); err != nil {
+		s.Skipped["early-cuts: no vegeta binary"]++
+		return
+	}
+	var csvc codec
+	for _, cd := range codecs {
+		if cd.name == "csv" {
+			csvc = cd
+		}
+	}
+	mkStream := func(cd codec, k int) *stream {
+		rs := genStream(r, csvc, 0)
+		for len(rs) < 3 {
+			rs = append(rs, genStream(r, csvc, 0)...)
+		}
+		for j := range rs {
+			rs[j].Attack = fmt.Sprintf("stream-%d", k)
+			rs[j].Seq = uint64(j)
+		}
+		st, _ := encodeStream(cd, rs)
+		return st
+	}
+	type input struct {
+		st  *stream
+		cut int
+	}
+	run1 := func(tag string, ins []input, to codec) {
+		var paths []string
+		var want [][]vegeta.Result
+		var desc []string
+		for k, in := range ins {
+			p := filepath.Join(c.Work, fmt.Sprintf("early-%s-%d.in", tag, k))
+			os.WriteFile(p, in.st.data[:in.cut], 0o644)
+			paths = append(paths, p)
+			n := 0
+			for _, b := range in.st.bounds {
+				if b <= in.cut {
+					n++
+				}
+			}
+			want = append(want, in.st.rs[:n])
+			desc = append(desc, fmt.Sprintf("%s cut at %d of %d bytes (first record ends at %d): %d complete records", in.st.Codec, in.cut, len(in.st.data), in.st.bounds[0], n))
+		}
+		total := 0
+		for _, w := range want {
+			total += len(w)
+		}
+		out := filepath.Join(c.Work, "early-"+tag+".out")
+		os.Remove(out)
+		inputDesc := map[string]interface{}{"command": "vegeta encode -to " + to.name + " -output OUT " + fmt.Sprint(len(paths)) + " file(s)", "inputs": desc}
+		exit, stopped := runGuarded(c, out, 4<<20, 10*time.Second, append([]string{"encode", "-to", to.name, "-output", out}, paths...)...)
+		s.Case("early-cut:"+tag, true)
+		s.Count(fmt.Sprintf("early-cuts:encode files=%d complete-records=%d", len(paths), total))
+		data, _ := os.ReadFile(out)
+		got, term := decodePrefix(to, data)
+		key := map[string]interface{}{"codec": to.name, "encode_command": true}
+		bad := ""
+		next := make([]int, len(want))
+		for i := range got {
+			k := -1
+			fmt.Sscanf(got[i].Attack, "stream-%d", &k)
+			// want[k] is the k-th file of THIS invocation; the stream numbers were chosen to coincide
+			if k < 0 || k >= len(want) || next[k] >= len(want[k]) || !gen.SameResult(&got[i], &want[k][next[k]]) {
+				bad = fmt.Sprintf("record %d of %d was never written to the inputs: %s", i, len(got), gen.ResultLine(&got[i]))
+				break
+			}
+			next[k]++
+		}
+		switch {
+		case bad != "" || stopped == "output flood" || term == "runaway":
+			if bad == "" {
+				bad = "the command floods its output"
+			}
+			s.Violate(kit.Violation{Kind: "prefix_extra_record", What: "`vegeta encode` on inputs cut before/around the end of their first record writes records that were never written to them", Input: inputDesc,
+				Expected: fmt.Sprintf("at most the %d complete records, then eof/error", total), Observed: fmt.Sprintf("%s; stopped=%q, %d records then %s", bad, stopped, len(got), term), Key: key})
+		case stopped == "deadline":
+			s.Violate(kit.Violation{Kind: "prefix_runaway", What: "`vegeta encode` on inputs cut before the end of their first record does not end", Input: inputDesc, Observed: "killed after 10 s", Key: key})
+		case exit == nil && len(got) != total:
+			s.Violate(kit.Violation{Kind: "prefix_missing_record", What: "`vegeta encode` reported success but its output lacks records completely written to the inputs", Input: inputDesc,
+				Expected: fmt.Sprintf("%d records", total), Observed: fmt.Sprintf("%d records then %s", len(got), term), Key: key})
+		}
+		// `report` over the same inputs: the number of requests it counts
+		rout := filepath.Join(c.Work, "early-"+tag+".report")
+		os.Remove(rout)
+		rexit, rstopped := runGuarded(c, rout, 4<<20, 10*time.Second, append([]string{"report", "-type", "json", "-output", rout}, paths...)...)
+		s.Count(fmt.Sprintf("early-cuts:report files=%d", len(paths)))
+		if rstopped == "deadline" || rstopped == "output flood" {
+			s.Violate(kit.Violation{Kind: "prefix_runaway", What: "`vegeta report` on inputs cut before the end of their first record does not end (it is fed records without end)",
+				Input: map[string]interface{}{"command": "vegeta report -type json -output OUT " + fmt.Sprint(len(paths)) + " file(s)", "inputs": desc}, Observed: "stopped: " + rstopped, Key: map[string]interface{}{"report_command": true}})
+		} else if rexit == nil {
+			var rep struct {
+				Requests *int `json:"requests"`
+			}
+			rb, _ := os.ReadFile(rout)
+			if json.Unmarshal(rb, &rep) != nil || rep.Requests == nil {
+				s.Skipped["early-cuts: report output not recognised"]++
+			} else if *rep.Requests != total {
+				kind := "prefix_missing_record"
+				if *rep.Requests > total {
+					kind = "prefix_extra_record"
+				}
+				s.Violate(kit.Violation{Kind: kind, What: "`vegeta report` counts a number of results different from the records completely written to its inputs",
+					Input: map[string]interface{}{"command": "vegeta report -type json", "inputs": desc}, Expected: fmt.Sprint(total), Observed: fmt.Sprint(*rep.Requests), Key: map[string]interface{}{"report_command": true}})
+			}
+		}
+		for _, p := range paths {
+			os.Remove(p)
+		}
+		os.Remove(out)
+		os.Remove(rout)
+	}
+	for ci, cd := range codecs {
+		st0 := mkStream(cd, 0)
+		first := st0.bounds[0]
+		cutsEarly := []int{0, 1, first / 2, first - 1}
+		if cd.name == "gob" {
+			cutsEarly = append(cutsEarly, 100, 206, 207) // inside / at the end of / just after the type definitions
+		}
+		if cd.name == "csv" {
+			cutsEarly = []int{0} // CSV: cuts at record boundaries only
+		}
+		for qi, cut := range cutsEarly {
+			if cut >= first {
+				continue
+			}
+			s.Count("early-cuts:" + cd.name + " single file cut before the first record is complete")
+			run1(fmt.Sprintf("%s-1-%d", cd.name, qi), []input{{st0, cut}}, codecs[(ci+qi)%len(codecs)])
+		}
+		// just after the first record, and the complete stream (sanity: the records must all come out)
+		run1(cd.name+"-1-after", []input{{st0, first}}, codecs[(ci+1)%len(codecs)])
+		run1(cd.name+"-1-full", []input{{st0, len(st0.data)}}, codecs[(ci+2)%len(codecs)])
+		// two files: both cut early; an early-cut one next to an intact one (either order)
+		st1 := mkStream(codecs[(ci+1)%len(codecs)], 1)
+		early1 := 0
+		if st1.Codec != "csv" {
+			early1 = st1.bounds[0] / 2
+		}
+		early0 := cutsEarly[len(cutsEarly)/2]
+		if early0 >= first {
+			early0 = 0
+		}
+		run1(cd.name+"-2-both", []input{{st0, early0}, {st1, early1}}, cd)
+		run1(cd.name+"-2-early+intact", []input{{st0, early0}, {st1, len(st1.data)}}, cd)
+		run1(cd.name+"-2-intact+early", []input{{st0, len(st0.data)}, {st1, early1}}, cd)
+	}
+}
+
 // runAttackFlakyPipe: `vegeta attack` writing its results to stdout, stdout being a pipe that is switched
 // to O_NONBLOCK behind the process's back after it started (Go does not poll it then: a full pipe makes
 // write(2) fail with EAGAIN, possibly after a partial write), with large records (45 kB bodies against a
@@ -1379,4 +1566,5 @@ func runC09(c *run.Ctx, s *kit.Summary) {
 	runEncodeOverwrite(c, r, s, c.N(24, 300))
 	runEncodeTruncated(c, r, s, c.N(24, 240))
 	runRoundRobinCut(c, r, s, c.N(120, 3000))
+	runEarlyCuts(c, r, s)
 }
